@@ -19,6 +19,7 @@ Record ftab := {
   cbl : nat -> bool;            (* can_bind_left, by unary operator *)
   sym_bin : nat -> nat;         (* symbol printed for a binary / unary operator (BinOp / UnOp Display) *)
   sym_un : nat -> nat;
+  annot_ctx : N;                (* Stmt::write: least context strength of an annotation expression *)
   alias_ctx : N;                (* Expr::write: an aliased expression is parenthesised when context_strength > this *)
   noalias_ctx : N;              (* FuncCall arm, no_alias: least context strength of an aliased callee / named value *)
   case_ctx : N;                 (* SwitchCase::write: least context strength of condition and value *)
@@ -208,7 +209,9 @@ Definition compat (F : ftab) (T : ptab) (nb nu : nat) : bool :=
      (the parser reads a func_call there); the default value of a parameter is read as a plain expression: calls,
      lambdas and aliased expressions are parenthesised *)
   (0 <? bs_func F) && (bs_func F <=? bs_call F) && (bs_func F <=? case_ctx F) && (bs_func F <=? body_ctx F) &&
-  (bs_call F <=? default_ctx F) && (alias_ctx F <? default_ctx F).
+  (bs_call F <=? default_ctx F) && (alias_ctx F <? default_ctx F) &&
+  (* an annotation expression is read by `expr()` too *)
+  (bs_call F <=? annot_ctx F) && (alias_ctx F <? annot_ctx F).
 
 (* ------------------------------------------------------------------ text *)
 Record ttab := {
@@ -261,6 +264,7 @@ Section Render.
     | AInterp sql parts => (if sql then 115 else 102) :: c_dquote :: flat_map ipart_text parts ++ [c_dquote]
     | AInternal s => [105;110;116;101;114;110;97;108;32] ++ s
     | APar s => write_ident_part (ids R) s
+    | APath path => write_ident (ids R) path
     end.
 
   Definition tok_text (t : tok) : str :=
@@ -278,6 +282,12 @@ Section Render.
     | TNamed n => write_ident_part (ids R) n ++ [58]
     | TFunc => [102; 117; 110; 99]
     | TThin => [45; 62]
+    | TNL ind => 10 :: repeat sp (2 * ind)
+    | TKw KLet => [108; 101; 116]
+    | TKw KModule => [109; 111; 100; 117; 108; 101]
+    | TKw KImport => [105; 109; 112; 111; 114; 116]
+    | TKw KInto => [105; 110; 116; 111]
+    | TAnn => [64]
     end.
 
   (* is a blank written between two adjacent tokens? *)
@@ -287,6 +297,8 @@ Section Render.
     match t with TA _ | TOpen _ | TS _ true | TAlias _ | TNamed _ => true | TRg bl _ => negb bl | _ => false end.
   Definition space_between (a b : tok) : bool :=
     match a, b with
+    | TNL _, _ | _, TNL _ | TAnn, _ => false
+    | TKw _, _ => true
     | _, TClose _ => false
     | TOpen _, _ => false
     | _, TComma => false
